@@ -65,6 +65,31 @@ fn spec_patterns_of_file(text: &str) -> Vec<String> {
 fn exclude_file_probe(prop: &str, rounds: usize, rng: &mut Rng, report: &mut Report) {
     const PATTERN_LINES: &[&str] = &[".#*", "report#*", "/cache", "*.o", "  *.o  ", "\t/data/report.txt", "/keep?.txt", "Track #??.wav", "main.*", "/src/main.c", "data/cache"];
     const OTHER_LINES: &[&str] = &["", "   ", "\t", " \t ", "# a comment", "   # an indented comment", "#", "#*.txt", "  #/keep1.txt"];
+    // an exclude file with a line that is not valid UTF-8 (a Latin-1 comment from an old editor) followed by more
+    // patterns: the command may refuse the file; if it accepts it, every pattern it could read must be honoured —
+    // never the patterns before the bad line only
+    {
+        let work = tempfile::tempdir().unwrap();
+        let w = work.path();
+        let src = w.join("src");
+        std::fs::create_dir_all(src.join("secret")).unwrap();
+        for (f, c) in [("keep.txt", "k"), ("old.bak", "b"), ("secret/key", "s")] {
+            std::fs::write(src.join(f), c).unwrap();
+        }
+        let exf = w.join("latin1.txt");
+        std::fs::write(&exf, b"*.bak\n# caf\xe9 : un commentaire en Latin-1\n/secret\n").unwrap();
+        let a = w.join("a");
+        let _ = cli(&["init", s(&a)]);
+        let (rc, _, _) = cli(&["backup", s(&a), s(&src), "--no-stats", "-E", s(&exf)]);
+        report.case(&format!("cli-exclude-file/{prop}/not-utf8"), true);
+        report.hit("cli:exclude-file-not-utf8");
+        if rc == 0 {
+            let stored = paths_of_listing(&real_list(&a, &Sel::Latest, "/", &[], IceptConfig::default()).lines);
+            if stored.iter().any(|p| p == "/secret" || p == "/secret/key" || p == "/old.bak") {
+                report.oracle_fail("cli:exclude-file-partly-read", json!({"cli": prop, "exclude_file": "*.bak / <a comment line that is not UTF-8> / /secret"}), "`conserve backup -E file` accepted a file it could not read completely and silently dropped the patterns after the unreadable line", json!({"stored": stored}));
+            }
+        }
+    }
     for round in 0..rounds {
         let work = tempfile::tempdir().unwrap();
         let w = work.path();
